@@ -106,6 +106,18 @@ theorem C11_wire_miswired_reads_fail_closed (w : Wire) (wd : World)
     (scenario w wd).commitments = 0 ∧ (scenario w wd).commitTxsAt = [] := by
   rcases h with h | h <;> simp [scenario, stakeCheck, allowanceCheck, h]
 
+/-- a bootnode built by NewNode admits a provider iff the configured provider registry confirms
+its stake, and blocks it otherwise; under any other wiring of the handshake's registry nobody is
+admitted -/
+theorem C11_wire_bootnode (w : Wire) (staked : Bool) :
+    ((bootScenario nodeWire staked).admitted = staked ∧ (bootScenario nodeWire staked).blocked = !staked ∧
+      (bootScenario nodeWire staked).stakeReadsAt = [Target.providerRegistry]) ∧
+    (w.handshakeStake ≠ Target.providerRegistry → (bootScenario w staked).admitted = false) := by
+  refine ⟨⟨?_, ?_, rfl⟩, ?_⟩
+  · cases staked <;> decide
+  · cases staked <;> decide
+  · intro h; simp [bootScenario, h]
+
 /-- the stake / prepay operation of the node reports success only for a transaction that was mined
 with a success status -/
 theorem C11_wire_op_success_iff (f : TxFate) : opReportsSuccess f = true ↔ f = TxFate.minedOk := by
